@@ -36,7 +36,15 @@ class SymLookup(dict):
     the entries the symbolic key can equal at all (same length / within its range) - a solver-decided fork per candidate"""
     def _cands(self, key):
         if isinstance(key, C.SymBytes):
-            return [k for k in self if isinstance(k, (bytes, bytearray)) and len(k) == len(key)]
+            import z3
+            n = len(key)
+            bv = key.bv()
+            fixed = {}
+            for i in range(n):            # bytes of the key that are constants (e.g. the zero bytes of a zero-extended value)
+                t = z3.simplify(z3.Extract(8 * (n - i) - 1, 8 * (n - i - 1), bv))
+                if z3.is_bv_value(t):
+                    fixed[i] = t.as_long()
+            return [k for k in self if isinstance(k, (bytes, bytearray)) and len(k) == n and all(k[i] == v for i, v in fixed.items())]
         if isinstance(key, C.SymInt):
             ub = C.unsigned_bound(key.e)
             return [k for k in self if isinstance(k, int) and not isinstance(k, bool) and (ub is None or 0 <= k <= ub)]
